@@ -131,6 +131,26 @@ theorem pool_shift_count_small (ops : List Op) (h : Hist) (hr : Hist.init.run op
     (h.pool.pages.sum < 2 ^ 64 → h.pool.pages.length ≤ 59) :=
   ⟨PV.Lemmas.Pool.run_page_sizes ops h hr, PV.Lemmas.Pool.shift_count_small ops h hr⟩
 
+/-- cache keeps NULL as "no answer yet" and primes its pool with one byte: once the pool has a page, no allocation (not even of
+zero bytes) is handed out in the NULL region again, and the pool keeps its pages -/
+theorem pool_no_null_after_first_page (p : Pool) (n : Nat) (h : p.pages ≠ []) :
+    1 ≤ (allocate p n).2.page ∧ (allocate p n).1.pages ≠ [] := by
+  have hl : 1 ≤ p.pages.length := List.length_pos_iff.mpr h
+  unfold allocate more
+  split
+  · simp
+  · exact ⟨hl, h⟩
+
+/-- the first non-empty allocation of a fresh pool opens page 1 (while a zero-byte allocation of a fresh pool IS the NULL pointer: example below) -/
+theorem pool_first_byte_opens_a_page (n : Nat) (hn : 0 < n) : (allocate init n).1.pages ≠ [] ∧ (allocate init n).2 = ⟨1, 0⟩ := by
+  have h : (init.cur + n > init.endOff) := by
+    show 0 + n > 0
+    omega
+  unfold allocate
+  rw [if_pos h]
+  simp [more, init]
+example : (allocate init 0).2 = ⟨0, 0⟩ := by decide
+
 -- non-vacuity: a history with an in-place Continue, a shrinking one, a moving one (copy of 100 bytes from page 2 to page 3) and four pages
 example : (Hist.init.run [.alloc 5, .alloc 0, .cont 3, .cont (-2), .alloc 100, .cont 40, .alloc 1]).map
     (fun h => (h.pool, h.live.map (fun l => (l.addr.page, l.addr.off, l.size)), h.copies.map (fun c => (c.src.page, c.src.off, c.dst.page, c.len)))) =
